@@ -210,6 +210,28 @@ func checkC18(c *run.Ctx) {
 			ids = append(ids, ident{alg, priv, pub, pubSet, kid})
 		}
 	}
+	// pairs generated without a key id validate just the same (several draws: attribute order inside the generator
+	// is a Go map's)
+	for _, alg := range []jwa.SignatureAlgorithm{jwa.EdDSA, jwa.ES512, jwa.PS512} {
+		for rep, n := 0, c.N(12, 40); rep < n; rep++ {
+			if alg == jwa.PS512 && rep >= 4 {
+				break // RSA generation is slow; the other two cover the shared code path
+			}
+			privSet, pubSet, err := jwkutil.NewKeyPair("", alg)
+			if err != nil {
+				c.Violation("gen/nokid-"+alg.String(), map[string]any{"what": "NewKeyPair with an empty key id failed: " + err.Error()})
+				break
+			}
+			for half, set := range map[string]jwk.Set{"private": privSet, "public": pubSet} {
+				k, _ := set.Key(0)
+				c.Eval(1)
+				if err := jwkutil.Validate(k); err != nil {
+					c.Violation("gen/nokid-"+alg.String(), map[string]any{"what": fmt.Sprintf("%s key of a %s pair generated with an empty key id does not validate (draw %d): %v", half, alg, rep, err)})
+				}
+				c.Count("generated_halves_without_kid_validated", 1)
+			}
+		}
+	}
 	// symmetric keys, including the ones the library itself generates, never validate
 	for _, alg := range []jwa.SignatureAlgorithm{jwa.HS256, jwa.HS384, jwa.HS512} {
 		type gen struct {
